@@ -31,7 +31,7 @@ import (
 
 const maxFills = 3 // appends of about one data page (128 MiB of tmpfs each) per history
 
-const seamIdle = 150 * time.Millisecond // see opGCInterleaved
+const seamIdle = 60 * time.Millisecond // see opGCInterleaved
 
 type seamFactory struct {
 	page.Factory
